@@ -37,6 +37,7 @@ def cfg : Cfg where
   fullCopyLo := fun n => Facts.C16.fullCopyLo n
   fullCopyHi := fun n => Facts.C16.fullCopyHi n
   fullWire := fun l => (Facts.C16.fullWire l).toNat
+  fullSeqAfterCheck := Facts.C16.fullSeqAfterCheck
   padEnvelope := Facts.C16.padOver
   padOf := fun last => (Facts.C16.padOf last).toNat
   padStrip := fun n => (Facts.C16.padStrip n).toNat
